@@ -21,7 +21,7 @@ def main():
             res[c] = {"rc": p.returncode, "violations": len(v), "tail": out.splitlines()[-3:] if p.returncode not in (0, 1) else []}
             print(mid, c, "rc=%d" % p.returncode, "VIOLATION lines=%d" % len(v), flush=True)
             if p.returncode not in (0, 1):
-                print(out[-2000:])
+                print("\n".join(l[:300] for l in out.splitlines()[-6:]))
             for l in out.splitlines():
                 if l.startswith("  guard="):
                     print("   ", l.strip()); break
